@@ -267,6 +267,12 @@ def generate(prop, rng, tier):
         if rng.random() < 0.3:
             # J3 twin: interior-only refinement, compared per pass with the base
             tr["twin"] = refine(rng, lv, junction=False, density=rng.choice([0.3, 0.7]))
+        elif rng.random() < 0.3:
+            # the same history on a batched replica (several proportional points at once):
+            # the junction code has a branch of its own for Series input
+            m = rng.randint(1, 3)
+            ids = rng.sample([0, 1, 2, 5, 11, 12, 40], m)
+            tr["batch"] = [[i, rng.choice([1.0, 2.0, 0.5, 4.0])] for i in ids]
         return tr
     return generate_c05(rng, tier)
 
@@ -365,10 +371,35 @@ def exec_c04(trace, out, log):
         return
     loads = np.array([x * step for x in lv], dtype=np.float64)
     big = float(max(abs(loads)))
-    law = get_law(trace["law"], int(trace["mat"]), big * 1.0731, int(trace["bins"]))
-    det, rec, _ = run_two_pass(loads, law)
-    rows = collective_rows(rec)
-    out.steps += 2
+    batch = trace.get("batch")
+    if batch:
+        nodes = [(int(i), float(r)) for i, r in batch]
+        idx = pd.MultiIndex.from_product([range(len(lv)), [i for i, _ in nodes]], names=["load_step", "node_id"])
+        ser = pd.Series([x * step * r for x in lv for _, r in nodes], index=idx, dtype=np.float64)
+        law = get_law(trace["law"], int(trace["mat"]), [(i, big * 1.0731 * r) for i, r in nodes], int(trace["bins"]))
+        det, rec, _ = run_two_pass(ser, law)
+        all_rows = collective_rows(rec)
+        out.steps += 2
+        out.count("probe:batched_history")
+        # every point must count what the scalar history counts, scaled by its (power of two) ratio
+        rows = None
+        for j, (nid, ratio) in enumerate(nodes):
+            mine = [dict(r) for r in all_rows if r["_idx"][1] == j]
+            for r in mine:
+                for k in ("loads_min", "loads_max"):
+                    r[k] = r[k] / ratio
+            key = [(r["loads_min"], r["loads_max"], r["is_closed_hysteresis"], r["run_index"]) for r in mine]
+            if rows is None:
+                rows, key0 = mine, key
+            elif key != key0:
+                out.violate("J1-second-pass-is-periodic-rainflow", "batched-points-disagree",
+                            {"levels": lv, "step": step, "batch": batch, "point": nid, "first": key0[:20], "this": key[:20]})
+                return
+    else:
+        law = get_law(trace["law"], int(trace["mat"]), big * 1.0731, int(trace["bins"]))
+        det, rec, _ = run_two_pass(loads, law)
+        rows = collective_rows(rec)
+        out.steps += 2
     log.add("rows", [[r[k] for k in ("loads_min", "loads_max", "is_closed_hysteresis", "run_index")] for r in rows])
     want = Counter((a * step, b * step) for a, b in per.periodic_cycles(lv))
     jc = junction_class(lv)
@@ -666,6 +697,15 @@ def shrink(prop, trace):
             t = copy.deepcopy(trace)
             t["twin"] = cand
             yield t
+    if trace.get("batch"):
+        t = copy.deepcopy(trace)
+        t["batch"] = None
+        yield t
+        if len(trace["batch"]) > 1:
+            for cand in core.drop_chunks(trace["batch"], 1):
+                t = copy.deepcopy(trace)
+                t["batch"] = cand
+                yield t
     if trace.get("nodes") and len(trace["nodes"]) > 1:
         for cand in core.drop_chunks(trace["nodes"], 1):
             t = copy.deepcopy(trace)
@@ -776,7 +816,7 @@ def describe(prop):
                 "assumptions": ["loads are integer multiples of a step, far from the code's 1e-12 guards", "models/periodic_rainflow.py is trusted",
                                 "multisets of load pairs are compared, not row order"],
                 "required_probes": ["junction:norev", "junction:between", "junction:tplat", "junction:lplat", "junction:maxend", "junction:nozturn",
-                                    "probe:memory3_rows", "fault:interior_refinement"]}
+                                    "probe:memory3_rows", "fault:interior_refinement", "probe:batched_history"]}
     return {"level": "exploration", "real": real,
             "stub": ["load-sequence source (benign junctions, adversarial nesting)", "pass driver", "models/hcm_ref.py: scalar HCM (primary/secondary branch, Memory 1-3) calling the same law object through its scalar interface",
                      "lock-step solo replicas for the batch comparison"],
